@@ -11,9 +11,17 @@ import Glom.Generated.MatchFacts
 namespace Glom.C10
 open Glom
 
+/-- rows of the classes the harness defines (harness/props/c10.py: `Obj`, `World.cls`, `Color`):
+    plain classes deriving from `object` — hence Hashable and nothing else among the stdlib
+    ABCs.  (Validated like every row by the correspondence: the type atom × value table is
+    part of the corpus.) -/
+def userClassRows : ClassTable :=
+  ["Obj", "Rec", "Tagged", "K0", "K1", "K2", "K3"].map (fun c => (c, [c, "object", "Hashable"])) ++
+  [("Color", ["Color", "Enum", "object", "Hashable"])]
+
 def genEnv : Env :=
   { exc := Generated.excTable
-    cls := ("Obj", ["Obj", "object"]) :: Generated.targetClassTable
+    cls := userClassRows ++ Generated.abcClassTable ++ Generated.targetClassTable
     raises := Generated.matchRaises
     catches := Generated.matchCatches
     mRecorded := Generated.mRecorded
